@@ -76,7 +76,8 @@ def run(ctx):
                     # recorded write_chunk calls can be compared position by position with the Lean chunk loop
                     st = (np.arange(n_in[2] * n_in[1] * n_in[0]).reshape(shape) + 1000 * d).astype(dt)
                 stacks.append(st)
-                ddir = os.path.join(tmp, f"slices{d}")
+                # directory names whose GIVEN order is not the lexicographic one: channels follow the command line
+                ddir = os.path.join(tmp, ["red", "green", "blue"][d] if ndirs > 1 else "slices")
                 os.makedirs(ddir)
                 ext = "png" if rgb else rng.choice(["png", "tif"])
                 for s in range(n_in[2]):
